@@ -151,16 +151,40 @@ def setattr_as_store(body):
 _unroll_counter = [0]
 
 
+def _pure_lookup(e):
+    """X.get(k[, d]) / X[k] chains over names: evaluating them twice changes nothing"""
+    if isinstance(e, (ast.Name, ast.Constant)):
+        return True
+    if isinstance(e, ast.Attribute):
+        return _pure_lookup(e.value)
+    if isinstance(e, ast.Subscript):
+        return _pure_lookup(e.value) and _pure_lookup(e.slice)
+    if isinstance(e, ast.Call) and isinstance(e.func, ast.Attribute) and e.func.attr == 'get' and not e.keywords:
+        return _pure_lookup(e.func.value) and all(_pure_lookup(a) or (isinstance(a, ast.Dict) and not a.keys) for a in e.args)
+    return False
+
+
 def unroll_literal_loops(body):
     """for x in (a, b, c): S   ->   S[x:=a]; S[x:=b]; S[x:=c]   (only for loops over displays of plain names/attributes)"""
     out = []
+    # a name bound exactly once (in this statement list) to a display stands for that display in a loop header
+    stores = {}
+    for s0 in body:
+        for x in ast.walk(s0):
+            if isinstance(x, ast.Name) and isinstance(x.ctx, ast.Store):
+                stores[x.id] = stores.get(x.id, 0) + 1
+    named = {s0.targets[0].id: s0.value for s0 in body if isinstance(s0, ast.Assign) and len(s0.targets) == 1 and isinstance(s0.targets[0], ast.Name)
+             and isinstance(s0.value, (ast.Tuple, ast.List)) and stores.get(s0.targets[0].id) == 1}
     for st in body:
         for field in ('body', 'orelse'):
             b = getattr(st, field, None)
             if isinstance(b, list) and b and isinstance(b[0], ast.stmt):
                 setattr(st, field, unroll_literal_loops(b))
+        if isinstance(st, ast.For) and isinstance(st.iter, ast.Name) and st.iter.id in named:
+            st = copy.copy(st)
+            st.iter = named[st.iter.id]
         if isinstance(st, ast.For) and isinstance(st.iter, (ast.Tuple, ast.List)) and not st.orelse \
-                and all(isinstance(e, (ast.Name, ast.Attribute, ast.Tuple, ast.Constant)) for e in st.iter.elts) \
+                and all(isinstance(e, (ast.Name, ast.Attribute, ast.Tuple, ast.Constant)) or _pure_lookup(e) for e in st.iter.elts) \
                 and not any(isinstance(x, (ast.Break, ast.Continue)) for s in st.body for x in ast.walk(s)):
             # locals assigned inside the body get a fresh name per unrolled copy, so that each copy's value stays a single
             # assignment that can be expanded
